@@ -196,3 +196,10 @@ def c12_failed_stage(ctx, first, third):
         B.find_balance(src, dst, mode=third)
     a3, b3 = stage_map(third, ctx.minimize_calls[1]["x"])
     ctx.ensure("the next stage composes with the balance accumulated before the refused call", eq(B.apply_balance(x), (x @ a1 + b1) @ a3 + b3))
+
+
+@ob("C12.dep_minimize", kind="B", samples=(2, 6), funcs=[], tol=1e-12, cite="(validation of an assumed dependency contract)",
+    note="scipy.optimize.minimize(method='Powell'): length of the result and f(x) <= f(x0), on smooth, non-smooth and non-convex objectives")
+def c12_dep_minimize(ctx):
+    from contracts import deps_validation as dv
+    dv.dep_minimize(ctx)
